@@ -3,6 +3,8 @@ package props
 import (
 	"fmt"
 	"math/rand/v2"
+	"os"
+	"path/filepath"
 	"sort"
 	"strings"
 
@@ -245,6 +247,7 @@ func (p c16) Run(w *mon.Worker, idx int) mon.Result {
 	var prefix []any
 	input := doc
 	pair := strings.HasPrefix(expr, ".x ")
+	loadFull := ""
 	if pair {
 		// .x OP .y on two sub-maps that share keys: every node of the result belongs to the document, under .x
 		y := &ref.V{K: ref.Map, M: []ref.KV{}}
@@ -278,6 +281,18 @@ func (p c16) Run(w *mon.Worker, idx int) mon.Result {
 		// the source of the copy loses an element afterwards: the copy's nodes still sit where they sat
 		full = ".x = (.y | " + expr + ") | del(.y[" + fmt.Sprint(r.IntN(len(doc.A))) + "]) | .x"
 		res.Tags = append(res.Tags, "copy_then_delete_from_source")
+	} else if !writeBack && !pair && f.seq && expr == "." && r.IntN(6) == 0 {
+		// the sequence comes out of load(): the documents of a multi-document file are its elements, each at its index
+		lf := filepath.Join(w.Scratch, fmt.Sprintf("c16-load-%d.yaml", idx))
+		var parts []string
+		for _, el := range doc.A {
+			parts = append(parts, el.JSON()+"\n")
+		}
+		if err := os.WriteFile(lf, []byte(strings.Join(parts, "---\n")), 0o644); err == nil {
+			defer os.Remove(lf)
+			loadFull = fmt.Sprintf("load(%q)", lf)
+			res.Tags = append(res.Tags, "loaded_multi_document")
+		}
 	} else if !writeBack && !pair && f.seq && expr == "." && r.IntN(5) == 0 {
 		// a slice of the sequence is taken on the way (bound, stored, measured): the elements of the sequence itself
 		// still say where they are
@@ -321,6 +336,9 @@ func (p c16) Run(w *mon.Worker, idx int) mon.Result {
 		prefix = []any{"y"}
 		writeBack = true
 		res.Tags = append(res.Tags, "variable_then_delete")
+	}
+	if loadFull != "" && len(doc.A) >= 2 {
+		full = loadFull
 	}
 	rawText, rawFmt := "", "yaml"
 	if !writeBack && !pair && r.IntN(12) == 0 {
@@ -425,6 +443,7 @@ func (p c16) Run(w *mon.Worker, idx int) mon.Result {
 	keys, e3 := q("[.. | [key]]")
 	parents, e4 := q("[.. | [parent]]")
 	ppaths, e5 := q("[.. | [parent | path]]")
+	gparents, e7 := q("[.. | [parent | parent]]")
 	for _, e := range []error{e1, e2, e3, e4, e5} {
 		if e != nil {
 			res.Verdict, res.Detail = mon.Held, "derivation failed in yq: "+e.Error()
@@ -539,6 +558,13 @@ func (p c16) Run(w *mon.Worker, idx int) mon.Result {
 		if !stale {
 			if at2, ok2 := base.GetPath(in.ppath); !ok2 || !ref.EqualNum(at2, par) {
 				violation = fmt.Sprintf("global: node %d (path %s): `parent` returns %s, but the container at the parent's path %s is %s", i, ps, clipStr(par.JSON(), 160), ref.PathString(in.ppath), clipStr(fmt.Sprint(at2), 160))
+				break
+			}
+		}
+		// two levels up: the grandparent IS the container found two steps up the path
+		if !stale && e7 == nil && len(gparents.A) == n && len(in.path) >= len(prefix)+2 && len(gparents.A[i].A) == 1 {
+			if at3, ok3 := base.GetPath(in.path[:len(in.path)-2]); ok3 && !ref.EqualNum(at3, gparents.A[i].A[0]) {
+				violation = fmt.Sprintf("global: node %d (path %s): `parent | parent` returns %s, but two steps up the path there is %s", i, ps, clipStr(gparents.A[i].A[0].JSON(), 160), clipStr(at3.JSON(), 160))
 				break
 			}
 		}
